@@ -12,10 +12,11 @@
    - so the first move searched at a node scores above SCORE_MIN (at the root: above SCORE_MIN + 1),
      a best move is recorded, and every stored entry carries a move and a score in range.
 
-   The table invariant [RangeTable] is preserved by every search of a game that HAS a legal move.
-   A search of a dead root (no legal move) stores the entry (SCORE_MIN + 1, no move, Exact) and breaks
-   it: see [dead_root_entry] and the scenario at the end of this file, where a later search that
-   probes this entry two plies down announces no move although four are legal. *)
+   The table invariant [RangeTable] is preserved by EVERY search of a game of bounded material: a root
+   without legal moves records no best move and (since the repair recorded at the end of this file)
+   caches nothing.  Before that repair such a root cached (SCORE_MIN + 1, no move, Exact), which broke the
+   invariant and made a later search announce no move in a position with four legal moves; the
+   scenario is kept at the end of this file, replayed on the repaired model. *)
 From Coq Require Import Lia FSets.FMapPositive.
 From Chess Require Import Model.Search Proofs.Grid Proofs.Inv Proofs.Abs Proofs.GenOk Proofs.PushPop Proofs.PushPop2
   Proofs.Reach Proofs.Bounds Proofs.BoundsQ Proofs.BoundsInst Proofs.SearchInv1 Proofs.SearchInv2 Proofs.Top
@@ -370,44 +371,52 @@ Proof.
     + exact I.
 Qed.
 
-Definition root_res (r : outcome (option Move * Z * bool) * sstate) : Prop :=
+(* a completed root call: the table invariant is kept, and a move is announced if there is one *)
+Definition root_res (g : game) (r : outcome (option Move * Z * bool) * sstate) : Prop :=
   match r with
-  | (Done (best, _, _), st') => best <> None /\ RT st'
+  | (Done (best, _, _), st') => RT st' /\ (checked_moves g <> [] -> best <> None)
   | (Aborted sa, st') => st' = sa /\ RT sa
   | (OutOfFuel, st') => True
   end.
 
 Theorem root_range g st depth :
-  Z.of_nat depth <= 255 -> GB g -> checked_moves g <> [] -> RT st -> root_res (root g st depth).
+  Z.of_nat depth <= 255 -> GB g -> RT st -> root_res g (root g st depth).
 Proof.
-  intros Hd Hg Hne HT. rewrite root_unfold.
-  assert (Hmain : (2 <= length (checked_moves g))%nat -> root_res (root_main g st depth)).
+  intros Hd Hg HT. rewrite root_unfold.
+  assert (Hmain : length (checked_moves g) <> 1%nat -> root_res g (root_main g st depth)).
   { intros Hlen. unfold root_main. cbv zeta.
     assert (HT0 : RT (root_clear st)) by exact HT.
     destruct (root_hit (tfind (s_tbl (root_clear st)) (g_hash g)) depth) as [en|] eqn:Eh.
     - apply root_hit_some in Eh. destruct Eh as (E1 & _ & _).
-      cbn [root_res]. split; [|exact HT0]. exact (proj1 (proj2 (HT0 _ _ E1))).
-    - assert (Hsne : root_sorted g (root_clear st) <> []).
-      { intros Esort. unfold root_sorted in Esort. apply sort_moves_nil in Esort.
+      cbn [root_res]. split; [exact HT0|]. intros _. exact (proj1 (proj2 (HT0 _ _ E1))).
+    - destruct (root_sorted g (root_clear st)) as [|m1 rest] eqn:Esort.
+      + (* nothing to search: the game has no legal move; nothing is cached *)
+        rewrite root_loop_nil. cbn [root_finish r_best r_bscore r_st root_res].
+        split; [exact HT0|]. intros Hne. exfalso.
+        unfold root_sorted in Esort. apply sort_moves_nil in Esort.
         pose proof (repetition_filter_length g (checked_moves g)) as HL. rewrite Esort in HL.
-        cbn [length] in HL. lia. }
-      assert (Hpre : (0 = 0 /\ RPre (mkR None (SCORE_MIN + 1) (root_clear st)) /\ root_sorted g (root_clear st) <> [])
-                     \/ RPost (mkR None (SCORE_MIN + 1) (root_clear st))).
-      { left. split; [reflexivity|]. split; [|exact Hsne]. split; [exact HT0 | reflexivity]. }
-      pose proof (root_loop_range g (pred depth) Hg (ArgsOK_root_nat depth Hd)
-                    (root_sorted g (root_clear st)) 0 (mkR None (SCORE_MIN + 1) (root_clear st))
-                    (root_sorted_incl' g (root_clear st)) Hpre) as HL.
-      destruct (root_loop _ _ _ _ _) as [r|sa|]; cbn [rres] in HL; cbn [root_finish root_res].
-      + destruct HL as (HTr & Hsr & Hbr).
-        split; [exact Hbr|]. unfold RT. cbn [with_tbl s_tbl].
-        apply TableAll_store_root; [exact HTr|].
-        unfold entry_ok. cbn [e_score e_pv e_depth].
-        split; [exact Hsr|]. split; [exact Hbr|]. lia.
-      + split; [reflexivity | exact HL].
-      + exact I. }
+        cbn [length] in HL. destruct (checked_moves g) as [|a [|b l]]; cbn [length] in *; try lia; congruence.
+      + rewrite <- Esort.
+        assert (Hsne : root_sorted g (root_clear st) <> []) by (rewrite Esort; discriminate).
+        assert (Hpre : (0 = 0 /\ RPre (mkR None (SCORE_MIN + 1) (root_clear st)) /\ root_sorted g (root_clear st) <> [])
+                       \/ RPost (mkR None (SCORE_MIN + 1) (root_clear st))).
+        { left. split; [reflexivity|]. split; [|exact Hsne]. split; [exact HT0 | reflexivity]. }
+        pose proof (root_loop_range g (pred depth) Hg (ArgsOK_root_nat depth Hd)
+                      (root_sorted g (root_clear st)) 0 (mkR None (SCORE_MIN + 1) (root_clear st))
+                      (root_sorted_incl' g (root_clear st)) Hpre) as HL.
+        destruct (root_loop _ _ _ _ _) as [r|sa|]; cbn [rres] in HL; cbn [root_finish root_res].
+        * destruct HL as (HTr & Hsr & Hbr).
+          split; [|intros _; exact Hbr].
+          destruct (r_best r) as [bm|] eqn:Ebm; [|exact HTr].
+          unfold RT. cbn [with_tbl s_tbl].
+          apply TableAll_store_root; [exact HTr|].
+          unfold entry_ok. cbn [e_score e_pv e_depth].
+          split; [exact Hsr|]. split; [discriminate|]. lia.
+        * split; [reflexivity | exact HL].
+        * exact I. }
   destruct (checked_moves g) as [|m [|m' t]] eqn:Ecm.
-  - congruence.
-  - cbn [root_res]. split; [discriminate | exact HT].
+  - apply Hmain. cbn [length]. lia.
+  - cbn [root_res]. split; [exact HT | discriminate].
   - apply Hmain. cbn [length]. lia.
 Qed.
 
@@ -419,17 +428,17 @@ Proof.
 Qed.
 
 Lemma driver_loop_range g :
-  GB g -> checked_moves g <> [] ->
+  GB g ->
   forall n st depth md found lines, RT st -> RT (d_st (driver_loop n g st depth md found lines)).
 Proof.
-  intros Hg Hne. induction n as [|n IH]; intros st depth md found lines HT; cbn [driver_loop].
+  intros Hg. induction n as [|n IH]; intros st depth md found lines HT; cbn [driver_loop].
   - exact HT.
   - destruct (255 <? depth) eqn:Ed; [exact HT|]. apply Z.ltb_ge in Ed.
-    pose proof (root_range g st (Z.to_nat depth) ltac:(lia) Hg Hne HT) as HR.
+    pose proof (root_range g st (Z.to_nat depth) ltac:(lia) Hg HT) as HR.
     pose proof (good_root_has_fuel g st (Z.to_nat depth) (proj1 Hg)) as HF.
     destruct (root g st (Z.to_nat depth)) as [[[[best score] only]|sa|] st1];
       cbn [root_res fst has_fuel] in *.
-    + destruct HR as [_ HT1].
+    + destruct HR as [HT1 _].
       match goal with |- context [if ?c then _ else _] => destruct c end; [exact HT1|].
       now apply IH.
     + destruct HR as [-> HTa]. exact HTa.
@@ -439,12 +448,12 @@ Qed.
 Lemma RangeTable_starting_depth t g : RangeTable t -> 0 <= starting_depth t g <= 255.
 Proof. intros H. apply starting_depth_range. now apply RangeTable_depths. Qed.
 
-(* the invariant survives every search of a game that has a legal move *)
+(* the invariant survives every search of a game of bounded material, dead roots included *)
 Theorem driver_range_table g t limit stop_at tableless :
-  GB g -> checked_moves g <> [] -> RangeTable t ->
+  GB g -> RangeTable t ->
   RangeTable (s_tbl (d_st (driver g t limit stop_at tableless))).
 Proof.
-  intros Hg Hne Ht. unfold driver. apply (driver_loop_range g Hg Hne). exact Ht.
+  intros Hg Ht. unfold driver. apply (driver_loop_range g Hg). exact Ht.
 Qed.
 
 (* C07: stopped at any poll (or never), a game with a legal move gets a move *)
@@ -455,7 +464,8 @@ Proof.
   intros Hg Ht Hne.
   apply (driver_answers_when_stopped g RT).
   - intros st k best sc only st' Hk HT E.
-    pose proof (root_range g st (Z.to_nat k) ltac:(lia) Hg Hne HT) as H. rewrite E in H. exact H.
+    pose proof (root_range g st (Z.to_nat k) ltac:(lia) Hg HT) as H. rewrite E in H.
+    cbn [root_res] in H. destruct H as [H1 H2]. split; [exact (H2 Hne) | exact H1].
   - intros st k. apply good_root_has_fuel. exact (proj1 Hg).
   - exact Hne.
   - exact Ht.
@@ -492,6 +502,155 @@ Proof.
   apply (bounded_reachable START g); [exact (legal_reachable_good START start_reachable) | exact start_bounded | exact Hp].
 Qed.
 
+Corollary kiwipete_answers g limit N tableless :
+  played_from KIWIPETE g -> checked_moves g <> [] -> d_move (driver g tempty limit N tableless) <> None.
+Proof.
+  intros Hp Hne. apply C07_answers_when_stopped; [|apply RangeTable_empty|exact Hne].
+  apply (bounded_reachable KIWIPETE g);
+    [exact (legal_reachable_good KIWIPETE kiwipete_reachable) | exact kiwipete_bounded | exact Hp].
+Qed.
+
+(* a whole session: starting from the empty table (ucinewgame), any sequence of searches of games
+   of bounded material - with or without a legal move -, each stopped anywhere or never *)
+Inductive session_table : table -> Prop :=
+| st_empty : session_table tempty
+| st_search g t limit stop_at tableless :
+    session_table t -> GB g ->
+    session_table (s_tbl (d_st (driver g t limit stop_at tableless))).
+
+Theorem session_table_range t : session_table t -> RangeTable t.
+Proof.
+  induction 1 as [|g t limit stop_at tableless _ IH Hg]; [apply RangeTable_empty|].
+  now apply driver_range_table.
+Qed.
+
+(* C07 over the session closure *)
+Corollary session_answers g t limit N tableless :
+  session_table t -> GB g -> checked_moves g <> [] -> d_move (driver g t limit N tableless) <> None.
+Proof. intros Ht Hg Hne. apply C07_answers_when_stopped; try assumption. now apply session_table_range. Qed.
+
+(* C06 over the session closure *)
+Corollary session_none_iff_dead g t limit stop_at tableless :
+  session_table t -> GB g ->
+  d_move (driver g t limit stop_at tableless) = None -> checked_moves g = [].
+Proof. intros Ht Hg. apply C06_none_iff_dead; [exact Hg | now apply session_table_range]. Qed.
+
+(* ---- a root without legal moves is not cached ---------------------------------------------------------------------- *)
+
+Lemma repetition_filter_nil g : repetition_filter g [] = [].
+Proof.
+  unfold repetition_filter. destruct (g_moves g) as [|m1 [|m2 [|m3 [|m4 [|m5 t]]]]]; try reflexivity.
+  destruct (move_eqb m1 m5); reflexivity.
+Qed.
+
+Lemma root_sorted_dead g st : checked_moves g = [] -> root_sorted g st = [].
+Proof. intros Hd. unfold root_sorted. rewrite Hd, repetition_filter_nil. reflexivity. Qed.
+
+(* the root called on a game without legal moves: no poll, no child, no store *)
+Lemma root_dead g st depth :
+  checked_moves g = [] -> root_hit (tfind (s_tbl st) (g_hash g)) depth = None ->
+  root g st depth = (Done (None, SCORE_MIN + 1, false), root_clear st).
+Proof.
+  intros Hd Hh. rewrite root_unfold, Hd. unfold root_main. cbv zeta.
+  change (s_tbl (root_clear st)) with (s_tbl st). rewrite Hh.
+  rewrite (root_sorted_dead g _ Hd), root_loop_nil. reflexivity.
+Qed.
+
+Lemma root_dead_state g st depth :
+  checked_moves g = [] -> exists b s o, root g st depth = (Done (b, s, o), root_clear st).
+Proof.
+  intros Hd.
+  destruct (root_hit (tfind (s_tbl st) (g_hash g)) depth) as [en|] eqn:Eh.
+  - exists (e_pv en), (e_score en), false. rewrite root_unfold, Hd. unfold root_main. cbv zeta.
+    change (s_tbl (root_clear st)) with (s_tbl st). rewrite Eh. reflexivity.
+  - exists None, (SCORE_MIN + 1), false. now apply root_dead.
+Qed.
+
+Lemma driver_loop_dead_tbl g :
+  checked_moves g = [] ->
+  forall n st depth md found lines, s_tbl (d_st (driver_loop n g st depth md found lines)) = s_tbl st.
+Proof.
+  intros Hd. induction n as [|n IH]; intros st depth md found lines; cbn [driver_loop]; [reflexivity|].
+  destruct (255 <? depth); [reflexivity|].
+  destruct (root_dead_state g st (Z.to_nat depth) Hd) as (b & s & o & ->).
+  match goal with |- context [if ?c then _ else _] => destruct c end; [reflexivity|].
+  rewrite IH. reflexivity.
+Qed.
+
+(* a search of a root without checked moves leaves the table exactly as it was - for every table,
+   limit, stop index and mode - and announces no move unless the table already holds an entry under
+   the hash of that root *)
+Theorem dead_root_not_cached g t limit stop_at tableless :
+  checked_moves g = [] ->
+  s_tbl (d_st (driver g t limit stop_at tableless)) = t /\
+  (tfind t (g_hash g) = None -> d_move (driver g t limit stop_at tableless) = None).
+Proof.
+  intros Hd. split.
+  - unfold driver. rewrite (driver_loop_dead_tbl g Hd). reflexivity.
+  - intros Hf. unfold driver.
+    assert (Esd : starting_depth t g = 1) by (unfold starting_depth; rewrite Hf; reflexivity).
+    rewrite Esd. change 256%nat with (S 255). cbn [driver_loop].
+    change (255 <? 1) with false. cbv iota.
+    rewrite root_dead; [|exact Hd|cbn [fresh_state s_tbl]; rewrite Hf; reflexivity].
+    change (SCORE_MIN + 1 <? SCORE_MIN + EXIT_BAND_LOW) with true.
+    rewrite Bool.orb_true_r. reflexivity.
+Qed.
+
+(* History.  In the model (and the code) before the repair "fix: a searched checkmate or stalemate root
+   poisoned the transposition table", the root stored its entry unconditionally.  With
+     X = r7/8/8/8/8/1p6/2k5/K7 w - - 0 1   (White is checkmated) and
+     P = 7r/P7/8/8/8/1p6/2k5/K7 w - - 0 1   (four legal moves, the promotions on a8, each answered by
+                                            Rh8xa8 mate, which is X)
+   the search of X cached (SCORE_MIN + 1, no move, depth 1, Exact) under the hash of X; the search of P
+   with that table probed it at iteration 3 (remaining depth 1), every child of the root returned
+   SCORE_MAX, no root move scored above SCORE_MIN + 1 and the driver announced NO MOVE (`bestmove none`
+   on the engine binary as well), although the same search from the empty table announced a7a8n.
+   So the C06/C07 statements above were false for tables left by a search of a dead root.
+   The scenario on the repaired model: *)
+From Coq Require Import String Ascii.
+Open Scope string_scope.
+Open Scope Z_scope.
+
+Definition DEAD_X : game := imported (txt "r7/8/8/8/8/1p6/2k5/K7 w - - 0 1").
+Definition ALIVE_P : game := imported (txt "7r/P7/8/8/8/1p6/2k5/K7 w - - 0 1").
+Definition TABLE_AFTER_X : table := s_tbl (d_st (driver DEAD_X tempty None (-1) false)).
+
+Example dead_x_good : GB DEAD_X.
+Proof.
+  split.
+  - apply legal_reachable_good. apply (lr_import (txt "r7/8/8/8/8/1p6/2k5/K7 w - - 0 1")); vm_compute; reflexivity.
+  - unfold Bounded, BOUND. split; vm_compute; discriminate.
+Qed.
+
+Example alive_p_good : GB ALIVE_P.
+Proof.
+  split.
+  - apply legal_reachable_good. apply (lr_import (txt "7r/P7/8/8/8/1p6/2k5/K7 w - - 0 1")); vm_compute; reflexivity.
+  - unfold Bounded, BOUND. split; vm_compute; discriminate.
+Qed.
+
+Example dead_x_then_p_answers :
+  checked_moves DEAD_X = [] /\
+  d_move (driver DEAD_X tempty None (-1) false) = None /\
+  tfind TABLE_AFTER_X (g_hash DEAD_X) = None /\
+  List.length (checked_moves ALIVE_P) = 4%nat /\
+  d_move (driver ALIVE_P TABLE_AFTER_X None (-1) false) = Some (Promotion White Knight (6, 0) (7, 0) None) /\
+  d_move (driver ALIVE_P TABLE_AFTER_X (Some 3) (-1) false) = Some (Promotion White Knight (6, 0) (7, 0) None) /\
+  d_move (driver ALIVE_P tempty (Some 3) (-1) false) = Some (Promotion White Knight (6, 0) (7, 0) None).
+Proof. vm_compute. repeat split; reflexivity. Qed.
+
+(* the same, from the general theorems: the table after X is the empty table, a session table *)
+Example table_after_x_empty : TABLE_AFTER_X = tempty.
+Proof.
+  apply (dead_root_not_cached DEAD_X tempty None (-1) false). vm_compute. reflexivity.
+Qed.
+
+Example p_after_x_answers limit N tableless : d_move (driver ALIVE_P TABLE_AFTER_X limit N tableless) <> None.
+Proof.
+  apply session_answers; [|exact alive_p_good|vm_compute; discriminate].
+  apply st_search; [apply st_empty | exact dead_x_good].
+Qed.
+
 Print Assumptions quiescence_range.
 Print Assumptions depth1_range.
 Print Assumptions node_range.
@@ -502,3 +661,11 @@ Print Assumptions C07_answers_when_stopped.
 Print Assumptions C06_none_iff_dead.
 Print Assumptions C06_C07_move_legal.
 Print Assumptions start_answers.
+Print Assumptions kiwipete_answers.
+Print Assumptions session_table_range.
+Print Assumptions session_answers.
+Print Assumptions session_none_iff_dead.
+Print Assumptions dead_root_not_cached.
+Print Assumptions dead_x_then_p_answers.
+Print Assumptions table_after_x_empty.
+Print Assumptions p_after_x_answers.
